@@ -183,6 +183,12 @@ func (c *Ctx) condField(cd *condDesc) (string, string, int64) {
 	if cd == nil {
 		return "", "", 0
 	}
+	if cd.If == nil {
+		if cd.SynField != "" {
+			return cd.SynField, "==", cd.SynK
+		}
+		return "", "", 0
+	}
 	v := cd.If.Cond
 	edge := cd.Edge
 	switch x := v.(type) {
@@ -2071,4 +2077,70 @@ func mirrorCmp(op token.Token) token.Token {
 		return token.LEQ
 	}
 	return op
+}
+
+// constTable: the entries of a package-level array that is only ever read (indexed for loads, len) and filled by its own
+// initialiser with constants: entry k -> value (entries the initialiser leaves out are zero), and the array's length.
+func (c *Ctx) constTable(g *ssa.Global) (map[int64]int64, int, bool) {
+	if g.Pkg != c.Pkg {
+		return nil, 0, false
+	}
+	arr, ok := g.Type().(*types.Pointer).Elem().Underlying().(*types.Array)
+	if !ok {
+		return nil, 0, false
+	}
+	if c.tableCache == nil {
+		c.tableCache = map[*ssa.Global]map[int64]int64{}
+		c.tableBad = map[*ssa.Global]bool{}
+		for _, f := range c.Funcs {
+			isInit := f.Name() == "init" && f.Synthetic != ""
+			for _, b := range f.Blocks {
+				for _, in := range b.Instrs {
+					var ops [12]*ssa.Value
+					for _, op := range in.Operands(ops[:0]) {
+						gg, ok := (*op).(*ssa.Global)
+						if !ok || gg.Pkg != c.Pkg {
+							continue
+						}
+						if _, isArr := gg.Type().(*types.Pointer).Elem().Underlying().(*types.Array); !isArr {
+							continue
+						}
+						ia, isIA := in.(*ssa.IndexAddr)
+						if !isIA || ia.X != ssa.Value(gg) {
+							if _, isDbg := in.(*ssa.DebugRef); !isDbg {
+								c.tableBad[gg] = true // its address or value goes somewhere else
+							}
+							continue
+						}
+						for _, u := range *ia.Referrers() {
+							switch y := u.(type) {
+							case *ssa.UnOp, *ssa.DebugRef:
+							case *ssa.Store:
+								k, isK := constInt(ia.Index)
+								v, isV := constInt(y.Val)
+								if y.Addr != ssa.Value(ia) || !isInit || !isK || !isV {
+									c.tableBad[gg] = true
+									continue
+								}
+								if c.tableCache[gg] == nil {
+									c.tableCache[gg] = map[int64]int64{}
+								}
+								c.tableCache[gg][k] = v
+							default:
+								c.tableBad[gg] = true
+							}
+						}
+					}
+				}
+			}
+		}
+	}
+	if c.tableBad[g] {
+		return nil, 0, false
+	}
+	t := c.tableCache[g]
+	if t == nil {
+		t = map[int64]int64{}
+	}
+	return t, int(arr.Len()), true
 }
